@@ -27,6 +27,7 @@ type c11Case struct {
 	added            string // import path on the '+' line ("" = none)
 	pkg              string // name the '-' import is referred to by
 	keep             []string
+	stays            bool // the '-'/context import is still referred to by the rewritten code: it must stay
 }
 
 var c11APICases = []c11Case{
@@ -34,6 +35,14 @@ var c11APICases = []c11Case{
 		patch: "@@\nvar x expression\n@@\n-import \"example.com/log\"\n+import \"example.com/zap\"\n\n-log.Print(x)\n+zap.Print(x)\n",
 		src:   "package p\n\nimport (\n\t\"fmt\"\n\n\t\"example.com/log\"\n)\n\ntype logger struct{ prefix string }\n\nfunc describe(lcl *logger) string { return lcl.prefix + fmt.Sprint(1) }\n\nfunc use() {\n\tlog.Print(\"a\")\n\tfre.Other()\n}\n",
 		gone:  "example.com/log", added: "example.com/zap", pkg: "log", keep: []string{"fmt"}},
+	{name: "context-import-versionlike-path",
+		patch: "@@\nvar x expression\n@@\n import \"k8s.io/api/core/v1\"\n\n-v1.Old(x)\n+v1.New(x)\n",
+		src:   "package p\n\nimport (\n\t\"fmt\"\n\n\t\"k8s.io/api/core/v1\"\n)\n\nfunc f() {\n\tlc := 1\n\t_ = lc\n\tfmt.Println(v1.Old(2))\n\tfr.Other()\n}\n",
+		gone:  "k8s.io/api/core/v1", pkg: "v1", keep: []string{"fmt"}, stays: true},
+	{name: "minus-import-versionlike-path-still-used",
+		patch: "@@\nvar x expression\n@@\n-import \"k8s.io/api/core/v1\"\n\n-v1.Old(x)\n+fresh(x)\n",
+		src:   "package p\n\nimport (\n\t\"fmt\"\n\n\t\"k8s.io/api/core/v1\"\n)\n\nfunc f() {\n\tlc := 1\n\t_ = lc\n\tfmt.Println(v1.Old(2), v1.Container{})\n\tfr.Other()\n}\n",
+		gone:  "k8s.io/api/core/v1", pkg: "v1", keep: []string{"fmt"}, stays: true},
 	{name: "delete-import-shadowing-var",
 		patch: "@@\nvar x expression\n@@\n-import \"errors\"\n\n-errors.New(x)\n+fail(x)\n",
 		src:   "package p\n\nimport (\n\t\"errors\"\n\t\"os\"\n)\n\nfunc f() error {\n\tlclvar := os.Args\n\t_ = lclvar.Len\n\treturn errors.New(\"x\")\n}\n\nvar g = frevar.Is\n",
@@ -73,9 +82,9 @@ func StubC11ParseFile(fset *token.FileSet, filename string, src any, mode parser
 	ast.Inspect(f, func(nn ast.Node) bool {
 		if id, ok := nn.(*ast.Ident); ok {
 			switch id.Name {
-			case "lcl", "lclvar":
+			case "lcl", "lclvar", "lc":
 				id.Name = local
-			case "fre", "frevar":
+			case "fre", "frevar", "fr":
 				id.Name = free
 			}
 		}
@@ -130,6 +139,14 @@ func VerifC11API() {
 		return
 	}
 	gone := c11Count(st.fout, cs.gone)
+	if cs.stays {
+		nd.Assert(gone == 1, cs.name+": an import the patch matched is still referred to by the rewritten code but was removed (or duplicated)")
+		for _, k := range cs.keep {
+			nd.Assert(c11Count(st.fout, k) == 1, cs.name+": an import the patch does not mention was added, removed or duplicated: "+k)
+		}
+		nd.Reach("done")
+		return
+	}
 	nd.Assert(nd.Implies(nd.Not(st.freeIsPkg), gone == 0), cs.name+": the '-' import survives although nothing refers to the package any more (a local variable is not a reference)")
 	nd.Assert(nd.Implies(st.freeIsPkg, gone == 1), cs.name+": the '-' import was removed although remaining code still refers to the package")
 	if cs.added != "" {
@@ -163,9 +180,9 @@ func ReplayC11API() {
 		if id, ok := nn.(*ast.Ident); ok {
 			repl := ""
 			switch id.Name {
-			case "lcl", "lclvar":
+			case "lcl", "lclvar", "lc":
 				repl = local
-			case "fre", "frevar":
+			case "fre", "frevar", "fr":
 				repl = free
 			}
 			if repl != "" {
@@ -194,6 +211,12 @@ func ReplayC11API() {
 		return
 	}
 	gone := c11Count(g, cs.gone)
+	if cs.stays {
+		if gone != 1 {
+			nd.Fail(cs.name + ": an import the patch matched is still referred to by the rewritten code but was removed (or duplicated)")
+		}
+		return
+	}
 	if free != cs.pkg && gone != 0 {
 		nd.Fail(cs.name + ": the '-' import survives although nothing refers to the package any more (a local variable is not a reference)")
 	}
